@@ -60,11 +60,15 @@ def ready_cases(tier):
     dags = [("indep2", dag("indep2", [2, 1])),
             ("fork", dag("fork", [1, 2, 1], [1, 0])),
             ("indep3", dag("indep3", [1, 2, 3])),
-            ("fork3", dag("fork3", [1, 1, 2, 3], [0, 1, 2]))]
+            ("fork3", dag("fork3", [1, 1, 2, 3], [0, 1, 2])),
+            # joins whose predecessors finish in the same step on other
+            # machines, with different volumes on their edges
+            ("join", dag("join", [1, 1, 1], [2, 6])),
+            ("wjoin", dag("wjoin", [1, 1, 1, 1], [2, 6, 4]))]
     clusters = [CLUSTERS[1][0], CLUSTERS[2][0], CLUSTERS[2][1],
-                CLUSTERS[3][1]]
+                CLUSTERS[3][1], CLUSTERS[3][0], CLUSTERS[4][0]]
     if tier == "thorough":
-        clusters += [CLUSTERS[2][2], CLUSTERS[3][0], CLUSTERS[3][2]]
+        clusters += [CLUSTERS[2][2], CLUSTERS[3][2]]
         dags.append(("diamond", dag("diamond", [1, 2, 3, 1], [1, 2, 0, 3])))
     for machines in clusters:
         M = len(machines)
